@@ -3,6 +3,7 @@ import GV.Drv.KC
 import GV.Drv.Eval
 import GV.Drv.EvalSpec
 import GV.Drv.Compile
+import GV.Drv.Pool
 open Lean GV.Drv
 
 def handle (line : String) : String :=
@@ -14,6 +15,7 @@ def handle (line : String) : String :=
     | "kc" => (kcCase j).compress
     | "eval" => (evalCaseFull j).compress
     | "compile" => (compileCase j).compress
+    | "pool" => (poolCase j).compress
     | s => (Json.mkObj [("i", jObj j "i"), ("error", Json.str s!"unknown scenario {s}")]).compress
 
 partial def loop (h : IO.FS.Stream) (out : IO.FS.Stream) : IO Unit := do
